@@ -80,7 +80,7 @@ CLAIMED = {
    technique=TECH),
  "C17": dict(
    category="model_checking",
-   text="Three solver obligations on the real checksum engine with the blech32 generator constants: L one-step GF(2)-linearity for all residues/symbols; D no 1- or 2-symbol error pattern within a window of N symbols (positions and symbols symbolic; N = 40 and 96 quick; 140 (every supported address length), 256, 512, 1023 thorough) yields residue 0 or the other variant's target; V the blech32 decoder accepts exactly the strings whose full polymod (hrp expansion + ALL data symbols) equals the target, checked against a reference polymod; plus mixed-case rejection across hrp/data.",
+   text="Three solver obligations on the real checksum engine with the blech32 generator constants: L one-step GF(2)-linearity for all residues/symbols; D no 1- or 2-symbol error pattern within a window of N symbols (positions and symbols symbolic; N = 40 and 96 quick; 140 (longer than every supported address) thorough) yields residue 0 or the other variant's target; V the blech32 decoder accepts exactly the strings whose full polymod (hrp expansion + ALL data symbols) equals the target, checked against a reference polymod; plus mixed-case rejection across hrp/data.",
    design_ref="DESIGN.md §2 C17",
    note="Induction over string length from L is a pencil argument (trusted). Unblinded bech32/bech32m validation lives in the external bech32 crate (not re-verified). Cross-hrp corruptions not decided." + TRUST,
    technique=TECH),
